@@ -47,7 +47,7 @@ PROPS = {
         text="Partial. Theorems (Props/C08.lean): a call waits at three kinds of places only; the reply loop returns the context's error as soon as the context end is consumed (ctx_returns_at_once, for every "
              "parameter value, quorum function and history); the router lock a caller needs is unavailable for good only in the back-pressure wedge of C09, which needs a server-stream call that ended early. "
              "Tie: loop parameters (Tie/C02), connection decisions (Tie/C09), digests of enqueue (whose select contains the request's context: the repair of defect D2), the reply loops, the one-way waits, sendMsg and "
-             "reconnect; engine ctx: call type x node behaviour {healthy, down, silent, peer not reading} x background traffic x instant of the context end, return within 2 s and errors.Is(err, ctx.Err()).",
+             "reconnect; engine ctx: call type x node behaviour {healthy, down, silent, peer not reading} x background traffic x instant of the context end, return within 2 s and errors.Is(err, ctx.Err()); plus a server-stream call that completed under a long-lived context whose servers stream on afterwards: calls with deadlines on the same nodes keep returning.",
         note="Partial: wall-clock delay, scheduler fairness and transport time-outs are outside the model; the 2 s bound is a test. The errors.Is clause is decided by the model (Props/C02 exhaustion_outcome: the exhaustion branch reports the context's error once the context has ended; repaired by fix ba53414).",
     ),
     "C09": dict(
@@ -57,7 +57,8 @@ PROPS = {
              "one of exactly two shapes (stale-broken, stream back-pressure) — a complete list; both shapes are stuck and both are reachable (explicit traces checked by the kernel): the two known findings; requests written to a stream that has died are never forgotten "
              "(lost_is_cancelled, parked_means_nothing_lost: whoever replaces a stream answers them first), whereas the pinned code reaches a quiet state with a request lost for good (pinned_leak_reachable). "
              "Tie: isConnected, the give-up test and the three facts of the stream replacement (cancel under the write lock before the new stream, mark before SendMsg, unmarked requests skipped) regenerated from channel.go; digests of the twelve functions the LTS was written from; engine wedge: workload phases with cancellations, slow quorum functions and handlers, "
-             "restarts, then a probe RPC per node; every hang is classified by goroutine signature; two deliberate replays reproduce the known findings.",
+             "restarts, then a probe RPC per node; every hang is classified by goroutine signature; two deliberate replays reproduce the known findings; a burst of calls made with an already-ended context on healthy idle nodes "
+             "(no stream fails there, so any node that stops answering is a violation whatever the shape).",
         note="Partial: relative to the model's list of shapes; real scheduling is not modelled; a new way to get stuck that is not in the LTS is caught by the digests and by an unknown signature in engine wedge.",
     ),
     "C10": dict(
@@ -135,7 +136,7 @@ PROPS = {
         note="Trusted: as C05. Goroutine exit is observed at runtime (goroutine profile filtered to library frames), not proved.",
     ),
     "C04": dict(
-        level="proof", engines=[eng("srv", 400, 10000)], labels=["C04"],
+        level="proof", engines=[eng("srv", 400, 10000, timeout=300)], labels=["C04"],
         text="Theorems (Props/C04.lean) over the per-connection LTS SrvConn (receive loop, handler goroutines, the mutex, once-guarded Release, implicit release at return): the invariant "
              "'mutex locked iff loop at top or exactly one started handler has not released' is inductive; at most one unreleased handler at every reachable state; a handler start requires "
              "zero unreleased handlers; a second Release is a no-op and the mutex is never unlocked twice; return releases; handlers start in receive order, once each; released handlers run "
@@ -160,15 +161,16 @@ PROPS = {
         text="Theorems (Props/C06.lean): without a per-node function every node is targeted with the caller's request; with f, node i is targeted with exactly f(request, i) and nodes for which f "
              "yields nothing are not targeted; targets are issued once each, in configuration order; the expected-replies counter equals the number of targets; the multicast wait loop returns "
              "exactly when every sent message is confirmed, at once with no-send-waiting. Tie: skip test, counter decrement, plain hand-off statements, wait-loop condition and waitForSend "
-             "regenerated from the four per-node loops and channel.go; digests; engines oneway (blocked handlers: return without waiting, payload and count per node) and qc (payloads of quorum calls).",
+             "regenerated from the four per-node loops and channel.go; digests; engines oneway (blocked handlers: return without waiting, payload and count per node; plus a back-to-back run of send-waiting calls whose context is cancelled the moment the call has returned: every message delivered exactly once, no call waits) and qc (payloads of quorum calls).",
         note="Trusted: Lean kernel; gx; 'without waiting for the connection' is observed with a generous bound on an otherwise idle channel; HTTP/2 flow control behind a blocked handler is transport behaviour outside the model.",
     ),
     "C07": dict(
-        level="proof", engines=[eng("qc", 3000, 60000)], labels=["C07"],
+        level="proof", engines=[eng("qc", 3000, 60000), eng("crashrace", 30, 800)], labels=["C07"],
         text="Theorems (Props/C07.lean): the reported error list has exactly one entry per consumed error arrival, in order; an error arrival never changes the reply set; failures interleaved "
              "before a quorum reply do not prevent success (tolerates_failures); an Incomplete outcome lists exactly the failures of a history in which all targeted nodes answered; status round trip "
              "(C13); over Chan: a request, streaming or not, is answered with at most one error and nothing after it (at_most_one_error, error_is_last: the failing node is reported once; the pinned code reported a node "
-             "twice: pinned_streaming_router_reports_twice); over ConnMgr: requests written to a stream that dies are answered (lost_is_cancelled). Tie: error guards and loop parameters regenerated; digests of sender/receiver/cancelPendingMsgs/connect/routeResponse and the error formatters; engine qc checks code + message per failing node in the error text.",
+             "twice: pinned_streaming_router_reports_twice); over ConnMgr: requests written to a stream that dies are answered (lost_is_cancelled). Tie: error guards and loop parameters regenerated; digests of sender/receiver/cancelPendingMsgs/connect/routeResponse and the error formatters; engine qc checks code + message per failing node in the error text; engine crashrace stops a server at a random instant while quorum calls are being issued to it concurrently "
+             "(requests registered, queued, being written or awaiting replies): every failing node contributes exactly one error, errors + replies add up.",
         note="Trusted: as C01. The liveness half ('a waiting call is completed when the connection breaks') is the ConnMgr statement lost_is_cancelled (a safety statement: a cancellation is on its way; that it arrives needs the scheduler assumption) and is exercised by the crash arrivals of engines qc / crashrace / corr.",
     ),
     "C11": dict(
@@ -199,7 +201,7 @@ PROPS = {
              "length result stays inside the buffer and a negative one comes with an empty slice; decode(encode) yields the same metadata and message of the type the "
              "direction selects; with the checked assertion the decoder panics on no byte string (unmarshal_total). Tie (Tie/C13.lean): the comma-ok form of the descriptor "
              "assertion and the two arms of the direction switch are read from encoding.go on every run; digests of the codec functions; exact differential run of "
-             "Marshal/Unmarshal (under recover) against the Lean framing model, with protowire's own slices compared with the model's on every input.",
+             "Marshal/Unmarshal (under recover) against the Lean framing model, with protowire's own slices compared with the model's on every input; a third of the valid messages carry fields the message type does not declare (they must survive the round trip); the decoder's configuration (no DiscardUnknown) is read from NewCodec on every run.",
         note="Trusted: Lean kernel; protobuf marshal/unmarshal round trip and registry consistency (oracle parameters: the harness feeds the real functions' answers to the model); "
              "an empty metadata buffer names no registered entity; gx's reading of the assertion form and the switch arms.",
     ),
@@ -208,7 +210,7 @@ PROPS = {
         text="Theorems (Props/C19.lean): MultiSorter.Less is the lexicographic order of its keys (multiLess_is_lex); the lexicographic order of strict weak orders is a "
              "strict weak order (lex_swo); ID, Port, LastNodeError are strict weak orders; a sort driven by a strict weak order yields a permutation without inversions, "
              "ties under k1 ordered by k2 (isort_perm, isort_sorted, sorted_ties). Tie (Tie/C19.lean): the three key bodies and the loop bound / switch / final return of Less are "
-             "regenerated from node.go on every run and proved equal to the model's keys for all nodes; exact differential run of Less(i,j) and Sort on generated slices.",
+             "regenerated from node.go on every run and proved equal to the model's keys for all nodes; exact differential run of Less(i,j) and Sort on generated slices (failed nodes carry distinct error values).",
         note="Trusted: Lean kernel; gx's translation of the three key bodies and of Less's decisions; sort.Sort's contract for strict weak orders (pdqsort itself is not modelled; "
              "its output is compared with the model's sort on every generated slice); strconv.Atoi/Port() read as 'the numeric port'.",
     ),
